@@ -321,7 +321,7 @@ func init() {
 				}
 			})
 			c.Sample(c03Case{Type: "int16", C: 2, P: 3, S: 1, L: 1, Ops: []wop{{K: "append", V: 1, W: 1}, {K: "indep", V: 1, A: 2}}})
-			c.Set("rule", fmt.Sprintf("13 element types x C in 1..3 x root of P<=%d frames x destination window (S,L) x every sequence of <=%d appends with source in {independent buffer of 0..P+2 frames, the destination itself, a second header over the destination's window, every other window of the root}; sequences whose source overlaps the region written are outside the property's domain and skipped; after every append every live view and every storage is compared with the views model, then every view is stamped in turn; non-trivial = at least one append ran; plus every pair of appends from a reduced source menu on large roots (8, 40, 300 frames) for 4 element types; and, for all 39 element types of the facade, buffers of special values (both zeros, infinities, largest/smallest magnitudes, integer bounds) appended in place over storage holding the same values rotated, and into new storage, compared by bit pattern", maxP, depth))
+			c.Set("rule", fmt.Sprintf("13 element types x C in 1..3 x root of P<=%d frames x destination window (S,L) x every sequence of <=%d appends with source in {independent buffer of 0..P+2 frames, the destination itself, a second header over the destination's window, every other window of the root}; sequences whose source overlaps the region written are outside the property's domain and skipped; after every append every live view and every storage is compared with the views model, then every view is stamped in turn; non-trivial = at least one append ran; plus every pair of appends from a reduced source menu on large roots (8, 40, 300 frames) for 4 element types; and, for all 46 element types of the facade, buffers of special values (both zeros, infinities, largest/smallest magnitudes, integer bounds) appended in place over storage holding the same values rotated, and into new storage, compared by bit pattern", maxP, depth))
 			c.Assume("capacity chosen by Go's append on growth is an environment answer: only 'whole frames, >= length' is required", "what the spare capacity of freshly grown storage holds is not specified and is adopted")
 		},
 		RunCase: func(c *core.Ctx, raw json.RawMessage) []F {
